@@ -76,7 +76,7 @@ def run_case(case):
                 reverse = r.random() < 0.5
                 for _ in range(r.randint(1, 4)):
                     fr, tr = F.make_fragment(gen, r, rid, case['i'] + 1, method, cell, name, pos, reverse, umi, r.randint(60, max_frag),
-                                             clip=r.choice([0, 0, 3]), motif_ok=not (method == 'nla' and r.random() < 0.05))
+                                             clip=r.choice([0, 0, 3]), motif_ok=not (method == 'nla' and r.random() < 0.12))
                     if fr is None:
                         continue
                     recs.extend(fr)
